@@ -1965,7 +1965,10 @@ def gen_literal_programs(seed, n):
             if cls == "imag":
                 ctxs += ["complex c = %s;", "complex[float[32]] c; c = %s;", "float f = %s;"]
             if cls == "int":
-                ctxs += ["for int i in [%s:4] { }", "uint u = %s;", "const int n = %s;", "bit[8] b; b[%s] = 1;"]
+                ctxs += ["for int i in [%s:4] { }", "uint u = %s;", "const int n = %s;", "bit[8] b; b[%s] = 1;",
+                         # narrow targets x extreme literals
+                         "float[32] h = %s;", "float[16] h = %s;", "float[64] h = %s;", "angle[8] ag = %s;", "uint[8] u8 = %s;",
+                         "int[8] i8 = %s;", "complex[float[32]] c32 = %s;", "float[32] h; h = %s;"]
             if cls == "bool":
                 ctxs += ["bool b = %s;", "if (%s) { }"]
             t = r.choice(ctxs)
